@@ -15,8 +15,11 @@ Hypothesis I_next : forall s, I s (set_next (N.succ (s_next s)) s).        (* th
 Hypothesis I_alloc : forall c s, I s (set_cells (nm_put (s_next s) c (s_cells s)) (set_next (N.succ (s_next s)) s)).
 Hypothesis I_setval : forall id v c s, nm_get id (s_cells s) = Some c ->
   I s (set_cells (nm_put id (mkCell (c_name c) (c_type c) (c_const c) (c_owner c) v) (s_cells s)) s).
-Hypothesis I_arrs : forall v s, I s (set_arrs v s).
-Hypothesis I_ctxs : forall v s, I s (set_ctxs v s).
+(* arrays are written in one way: a new array under the identifier just taken from the counter; contexts in two: a new context
+   under the identifier just taken from the counter, and a new record for a context that exists *)
+Hypothesis I_alloc_arr : forall a s, I s (set_arrs (nm_put (s_next s) a (s_arrs s)) (set_next (N.succ (s_next s)) s)).
+Hypothesis I_alloc_ctx : forall c s, I s (set_ctxs (nm_put (s_next s) c (s_ctxs s)) (set_next (N.succ (s_next s)) s)).
+Hypothesis I_upd_ctx : forall id c c' s, nm_get id (s_ctxs s) = Some c -> I s (set_ctxs (nm_put id c' (s_ctxs s)) s).
 Hypothesis I_procs : forall v s, I s (set_procs v s).
 Hypothesis I_funcs : forall v s, I s (set_funcs v s).
 Hypothesis I_emit : forall x s, I s (set_out (x :: s_out s) s).
@@ -93,10 +96,21 @@ Proof.
   intros s. unfold set_cell_val, bind, get_cell. destruct (nm_get id (s_cells s)) as [c|] eqn:E; cbn [snd]; [|apply I_refl].
   unfold put_cell, modify. cbn [snd]. apply I_setval. exact E.
 Qed.
-Lemma Pr_put_arr id c : Pr (put_arr id c).
-Proof. apply Pr_modify. intros s. apply I_arrs. Qed.
-Lemma Pr_put_ctx id c : Pr (put_ctx id c).
-Proof. apply Pr_modify. intros s. apply I_ctxs. Qed.
+Lemma Pr_alloc_arr {B} (a : arr) (k : N -> M B) : (forall id, Pr (k id)) -> Pr (id <- fresh ;; put_arr id a ;;; k id).
+Proof.
+  intros Hk s. unfold bind, fresh, put_arr, modify. cbn [fst snd].
+  eapply I_trans; [apply (I_alloc_arr a s)|]. apply Hk.
+Qed.
+Lemma Pr_alloc_ctx {B} (c : ctx) (k : N -> M B) : (forall id, Pr (k id)) -> Pr (id <- fresh ;; put_ctx id c ;;; k id).
+Proof.
+  intros Hk s. unfold bind, fresh, put_ctx, modify. cbn [fst snd].
+  eapply I_trans; [apply (I_alloc_ctx c s)|]. apply Hk.
+Qed.
+Lemma Pr_upd_ctx id f : Pr (upd_ctx id f).
+Proof.
+  intros s. unfold upd_ctx, bind, get_ctx. destruct (nm_get id (s_ctxs s)) as [c|] eqn:E; cbn [snd]; [|apply I_refl].
+  unfold put_ctx, modify. cbn [snd]. eapply I_upd_ctx. exact E.
+Qed.
 Lemma Pr_emit x : Pr (emit x).
 Proof. apply Pr_modify. intros s. apply I_emit. Qed.
 
@@ -159,9 +173,9 @@ Qed.
 
 Ltac solve_I :=
   cbv beta;
-  first [ apply I_refl | apply I_next | apply I_arrs | apply I_ctxs | apply I_procs | apply I_funcs | apply I_emit
+  first [ apply I_refl | apply I_next | apply I_procs | apply I_funcs | apply I_emit
         | apply I_in | apply I_fs | apply I_files | apply I_steps | apply I_cellcount | apply I_depth | apply I_rand
-        | (eapply I_trans; [ | first [ apply I_next | apply I_arrs | apply I_ctxs | apply I_procs | apply I_funcs | apply I_emit
+        | (eapply I_trans; [ | first [ apply I_next | apply I_procs | apply I_funcs | apply I_emit
                                      | apply I_in | apply I_fs | apply I_files | apply I_steps | apply I_cellcount | apply I_depth | apply I_rand ] ]; solve_I) ].
 
 Ltac head_of t := match t with ?f _ => head_of f | _ => t end.
@@ -170,11 +184,13 @@ Ltac head_of t := match t with ?f _ => head_of f | _ => t end.
 Ltac pr_with known :=
   repeat first
     [ apply Pr_ret | apply Pr_failm | apply Pr_gets | apply Pr_fresh | apply Pr_get_cell | apply Pr_get_arr | apply Pr_get_ctx
-    | apply Pr_set_cell_val | apply Pr_put_arr | apply Pr_put_ctx | apply Pr_emit | apply Pr_runtime_error_cls
+    | apply Pr_set_cell_val | apply Pr_upd_ctx | apply Pr_emit | apply Pr_runtime_error_cls
     | apply Pr_lookup_def | apply Pr_root_of_aux | apply Pr_nonrec_ancestor_aux | apply Pr_on_chain_aux | apply Pr_trace_aux
     | known
     | match goal with
       | |- Pr (bind fresh (fun id => bind (put_cell id _) _)) => apply Pr_alloc; intros ?
+      | |- Pr (bind fresh (fun id => bind (put_arr id _) _)) => apply Pr_alloc_arr; intros ?
+      | |- Pr (bind fresh (fun id => bind (put_ctx id _) _)) => apply Pr_alloc_ctx; intros ?
       | |- Pr (bind _ _) => apply Pr_bind; [ | intros ? ]
       | |- Pr (modify _) => apply Pr_modify; intros ?; solve_I
       | |- Pr (catch_cls _ _ _) => apply Pr_catch_cls; [ | intros ? ]
